@@ -973,7 +973,7 @@ func (comp) Extra(prop string, tier string, seed int64, scratch string) *core.Ex
 	}
 	out.Rule = fmt.Sprintf("%d seeded workloads (persister DB / SerialDB, MaxBatchSize in {1,2,3,5}, 8-30 operations Put/Remove (+ a few Get/Has, "+
 		"up to 2 Close+reopen) over 3-5 keys and values {nil, empty, 1 byte, longer}; 1 workload in 10 runs with BatchDelaySeconds=1, 6-13 operations and 1-2 "+
-		"timer flushes awaited with real sleeps) over a recording storage.Storage; crash points: EVERY recorded storage event (Create/Write/Sync/Remove/Rename/SetMeta, "+
+		"timer flushes awaited with real sleeps; plus 2 fixed timer workloads with idle timer periods before and between the writes) over a recording storage.Storage; crash points: EVERY recorded storage event (Create/Write/Sync/Remove/Rename/SetMeta, "+
 		"first open and reopen included) and every operation boundary; per point crash images for the unsynced tail: none / torn after a seeded random number of bytes (%d offsets per point) / all, "+
 		"materialised as plain files, reopened with the unmodified constructor and read with RangeKeys + Get; the recovered map must be the harness-side state after exactly "+
 		"j flushes, completed <= j <= started (boundary: j = completed = started). evaluations = images judged, distinct = distinct image contents actually reopened", n, tornPerPoint)
@@ -994,6 +994,15 @@ func (comp) Extra(prop string, tier string, seed int64, scratch string) *core.Ex
 	for i := range jobs {
 		sub := rng.Int63()
 		jobs[i] = &job{i: i, sub: sub, w: genWorkload(rand.New(rand.NewSource(sub)), i%10 == 3)}
+	}
+	// fixed timer workloads: the persister sits idle across a whole timer period (a tick that finds nothing pending), then
+	// acknowledges writes below MaxBatchSize -- the NEXT tick must still flush them (and so must the one after a second quiet period)
+	for kind := 0; kind < 2; kind++ {
+		ka, kb := keyPool[0], keyPool[1]
+		w := &workload{kind: kind, max: 5, delay: 1, ops: []wop{
+			{code: opTick}, {code: opPut, key: ka, val: []byte{1}}, {code: opTick}, {code: opTick},
+			{code: opPut, key: kb, val: []byte{2}}, {code: opRemove, key: ka}, {code: opTick}}}
+		jobs = append(jobs, &job{i: len(jobs), sub: int64(7000 + kind), w: w})
 	}
 	workers := runtime.NumCPU()
 	runAll := func(f func(*job)) {
